@@ -304,6 +304,9 @@ class SimplifySymbolNames:
                     yield Simplification({symbol: Node('|' + s + '|')}, [])
         else:
             for s in self.__simpler(symbol):
+                if s[0].isdigit() or is_const(Node(s)):
+                    # not a symbol any more
+                    continue
                 if not is_var(Node(s)):
                     yield Simplification({symbol: Node(s)}, [])
 
